@@ -3,6 +3,7 @@ mod c01;
 mod c02mut;
 mod c03;
 mod mini;
+mod c05corelib;
 mod c06;
 mod c07;
 mod c08;
